@@ -20,12 +20,23 @@ RULE = ('random panels (all four models, m,n 1..4, generic flags, optional y1<y2
 KERNELS = ('fkG0', 'fkG0y1y2')
 
 
+def regen_gauss_table():
+    """the `*_tabulated` theorems quote the Gauss-Legendre table of the C library (Gen/CTables/LegGauss*.lean): regenerate the C tables
+    from the tree under test as C10 does (files are rewritten only when their content changes)"""
+    import os
+    from tools import common
+    from tools.translate import ctables as ct
+    ct.emit_all(common.REPO, os.path.join(common.LEAN, 'CompmechVerif', 'Gen', 'CTables'), common.write_if_changed)
+
+
+
 def translate(ctx):
     pc.translated(ctx)
     # the state-based kernels fkG_num (theorems kG_num_* of Props/C03.lean) are regenerated too
     from tools.translate import gen_num
     if not hasattr(ctx, '_num_ir'):
         ctx._num_ir = gen_num.translate_all()
+    regen_gauss_table()
 
 
 def num_model_arm(ctx, reason):
